@@ -324,6 +324,8 @@ func isParamExactly(v ssa.Value, p *ssa.Parameter) bool {
 }
 
 func runC19(c *Ctx) {
+	createTruncRule(c, "R5-reassembled-files-start-empty")
+	c19UseMetadata(c)
 	// R1 contiguity
 	if fn := c.fn("R1-segment-contiguity", "(*ls.Replica).applyWALSegmentsV3"); fn != nil {
 		const rule = "R1-segment-contiguity"
@@ -691,4 +693,25 @@ func sameFieldLoad(a, b ssa.Value) bool {
 		return false
 	}
 	return fa.X == fb.X || sameValue(fa.X, fb.X)
+}
+
+
+// c19UseMetadata: every listing whose CreatedAt is compared with a requested time asks the
+// backend for accurate (metadata) timestamps: object stores otherwise report upload times.
+func c19UseMetadata(c *Ctx) {
+	const rule = "R4-format-arbitration"
+	n := 0
+	for _, name := range []string{"(*ls.Replica).findBestLTXSnapshotForTimestamp"} {
+		fn := c.fn(rule, name)
+		if fn == nil {
+			continue
+		}
+		for _, call := range callsTo(fn, nameIs("ls.FindLTXFiles")) {
+			n++
+			a := namedArg(call, "useMetadata")
+			c.check(a != nil && isConst(a) && vConstBool(true)(a), rule, fnName(fn)+": FindLTXFiles(useMetadata = true) for a timestamp comparison", c.pos(call), "constant true",
+				"the snapshot listing compared with the requested time does not request accurate timestamps: on object stores CreatedAt is then the upload time and an eligible LTX backup is judged too new")
+		}
+	}
+	c.floor(rule, n, 1, "timestamp-filtered snapshot listings")
 }
